@@ -100,7 +100,11 @@ impl SwiftField for Field53B {
             });
         }
 
-        let lines: Vec<&str> = input.split('\n').collect();
+        let mut lines: Vec<&str> = input.split('\n').collect();
+        // A trailing line break adds no line: "X\n" is read like "X", which is how it is written back
+        if lines.len() == 2 && lines[1].is_empty() {
+            lines.pop();
+        }
         let mut party_identifier = None;
         let mut location = None;
 
